@@ -54,7 +54,8 @@ try:
     pkg = "./" + os.path.dirname(dpath)
     dm = re.findall(r"^func (Test\w+)\(", open(demo).read(), re.M)
     runpat = "^(" + "|".join(dm) + ")$"
-    raceflag = "-race " if ("//go:build race" in open(demo).read() or "go test -race" in dpath_txt) else ""
+    dsrc = open(demo).read()
+    raceflag = "-race " if ("//go:build race" in dsrc or "go test -race" in dpath_txt or "with -race" in dsrc) else ""
     if raceflag:
         env["CGO_ENABLED"] = "1"
     r1 = sh("go test %s-vet=off -count=1 -run '%s' %s" % (raceflag, runpat, pkg), timeout=1800)
